@@ -773,6 +773,7 @@ class NumWalker(Walker):
         num2.defs, num2.types, num2.fresh, num2.parent = self.num.defs, self.num.types, self.num.fresh, self.num
         w = NumWalker(cb, self.cfg, self.facts, self.contracts, None, num=num2, depth=self.depth + 1, max_paths=self.max_paths)
         w.inline = self.inline
+        w.gen_map = mir.generic_map(self, callee)
         w.region, w.region_head = None, None
         s2 = self.fork(st)
         caller_env = s2["env"]
@@ -1050,11 +1051,52 @@ class NumWalker(Walker):
                     havocs(v, base_env.get(l, self.local_term(st, l)), ("env", l))
             for k, v in cur_mem.items():
                 havocs(v, base_mem.get(k, k), ("mem", k))
+        # relational templates over pairs of havocked variables:  x + y  and  x - y  never above / below their entry value
+        # (a search interval [left, left + len) that only shrinks; a cursor and a remaining count that move together)
+        if bk and g is not None:
+            hv2 = []
+            for l, v in cur_env.items():
+                if isinstance(v, tuple) and v and v[0] == "havoc" and num.aff(v) is not None and self.body.local_name(l):
+                    hv2.append((v, base_env.get(l, self.local_term(st, l)), ("env", l)))
+            for k, v in cur_mem.items():
+                if isinstance(v, tuple) and v and v[0] == "havoc" and num.aff(v) is not None:
+                    hv2.append((v, base_mem.get(k, k), ("mem", k)))
+            hv2 = [h for h in hv2 if num.aff(h[1]) is not None]
+            if 2 <= len(hv2) <= 6:
+                for i in range(len(hv2)):
+                    for j in range(i + 1, len(hv2)):
+                        for sgn in (1, -1):
+                            e0 = num.aff(hv2[i][1]) + num.aff(hv2[j][1]).scale(sgn)
+                            for kind in ("le", "ge"):
+                                cands.append(("pair", kind, e0, (hv2[i], hv2[j], sgn)))
+
+        def cand_aff(c, p=None):
+            """value of the candidate's left-hand side at the loop head (p None) or at the end of back path p"""
+            if c[0] == "pair":
+                (vi, _, gi), (vj, _, gj), sgn = c[3]
+                if p is None:
+                    a, b2 = num.aff(vi), num.aff(vj)
+                else:
+                    ni = p.state["env"].get(gi[1]) if gi[0] == "env" else p.state["mem"].get(gi[1], gi[1])
+                    nj = p.state["env"].get(gj[1]) if gj[0] == "env" else p.state["mem"].get(gj[1], gj[1])
+                    a, b2 = (num.aff(ni) if ni is not None else None), (num.aff(nj) if nj is not None else None)
+                if a is None or b2 is None:
+                    return None
+                return a + b2.scale(sgn)
+            (v, kind, cst, getter) = c
+            if p is None:
+                return num.aff(v)
+            nv = p.state["env"].get(getter[1]) if getter[0] == "env" else p.state["mem"].get(getter[1], getter[1])
+            return num.aff(nv) if nv is not None else None
+
+        def cand_rhs(c):
+            return c[2] if c[0] == "pair" else const(c[2])
+
         def cand_cons(cs):
             out = []
-            for (v, kind, cst, getter) in cs:
-                a = num.aff(v)
-                out.append(le(a, const(cst)) if kind == "le" else le(const(cst), a))
+            for c in cs:
+                a = cand_aff(c)
+                out.append(le(a, cand_rhs(c)) if c[1] == "le" else le(cand_rhs(c), a))
             return out
         for rnd in range(3):
             if not (inv or cands):
@@ -1068,15 +1110,14 @@ class NumWalker(Walker):
             bk2 = [p for p in res if p.end[0] == "back"]
             keep = []
             for c in cands:
-                (v, kind, cst, getter) = c
+                kind = c[1]
                 ok = True
                 for p in bk2:
-                    nv = p.state["env"].get(getter[1]) if getter[0] == "env" else p.state["mem"].get(getter[1], getter[1])
-                    a = num.aff(nv) if nv is not None else None
+                    a = cand_aff(c, p)
                     if a is None:
                         ok = False
                         break
-                    goal = le(a, const(cst)) if kind == "le" else le(const(cst), a)
+                    goal = le(a, cand_rhs(c)) if kind == "le" else le(cand_rhs(c), a)
                     if not lp.entails(num.close(self.full_store(p.state), [goal]), goal):
                         ok = False
                         break
@@ -1087,7 +1128,9 @@ class NumWalker(Walker):
             cands = keep
         self.summ[head] = {"vars": {(self.body.local_name(l) or "_%d" % l): mir.fmt(v)[:60] for l, v in cur_env.items()},
                            "fields": {mir.fmt(k)[:40]: mir.fmt(v)[:60] for k, v in cur_mem.items()}, "invariants": len(inv),
-                           "bounds": ["%s %s %d" % (mir.fmt(c[0]), "<=" if c[1] == "le" else ">=", c[2]) for c in cands]}
+                           "bounds": [("%s %s %d" % (mir.fmt(c[0]), "<=" if c[1] == "le" else ">=", c[2])) if c[0] != "pair" else
+                                      ("%s %s %s %s entry value" % (mir.fmt(c[3][0][0])[:30], "+" if c[3][2] > 0 else "-", mir.fmt(c[3][1][0])[:30], "<=" if c[1] == "le" else ">="))
+                                      for c in cands]}
         self.continue_after(res, stack, record_inner=True)
 
     def atom_is_head_level(self, a, g, ncall=0, pre_havocs=()):
